@@ -1,11 +1,12 @@
 // Generator driver: runs /repo's current v2 generator on a JSON manifest (no jar needed).
 //
-//	gen <manifest.json> <outDir> [withPackageRoot]
+//	gen <manifest.json> <outDir> [withPackageRoot] [dep=<written go-restli-manifest.gr.json of another package root>]...
 package main
 
 import (
 	"fmt"
 	"os"
+	"strings"
 
 	"github.com/PapaCharlie/go-restli/v2/cmd"
 )
@@ -21,8 +22,26 @@ func main() {
 		fmt.Fprintln(os.Stderr, "GENERATOR-ERROR: read manifest:", err)
 		os.Exit(1)
 	}
-	withPackageRoot := len(os.Args) > 3 && os.Args[3] == "withPackageRoot"
-	if err := cmd.GenerateCode(os.Args[2], []*cmd.GoRestliManifest{m}, withPackageRoot); err != nil {
+	withPackageRoot := false
+	var manifests []*cmd.GoRestliManifest
+	for _, a := range os.Args[3:] {
+		if a == "withPackageRoot" {
+			withPackageRoot = true
+		} else if strings.HasPrefix(a, "dep=") { // as --manifest-dependencies does: dependency manifests first, the input last
+			d, err := os.ReadFile(a[4:])
+			if err != nil {
+				fmt.Fprintln(os.Stderr, err)
+				os.Exit(2)
+			}
+			dm, err := cmd.ReadManifest(d)
+			if err != nil {
+				fmt.Fprintln(os.Stderr, "GENERATOR-ERROR: read dependency manifest:", err)
+				os.Exit(1)
+			}
+			manifests = append(manifests, dm)
+		}
+	}
+	if err := cmd.GenerateCode(os.Args[2], append(manifests, m), withPackageRoot); err != nil {
 		fmt.Fprintf(os.Stderr, "GENERATOR-ERROR: %+v\n", err)
 		os.Exit(1)
 	}
